@@ -84,6 +84,33 @@ def stageA(worker, m):
     record("A", res)
     return res
 
+FLAKY = "TestHandlerHandleSignedLatency|TestHandleCustomMessage"  # load-sensitive tests of the repository's suite
+
+def stageA2(worker, m):
+    """Second look at a mutant the suite 'killed' while the machine was busy: is it killed by anything but
+    the two load-sensitive tests, or by them reproducibly (3 of 3 runs)?"""
+    d = scratch(worker, m)
+    res = {k: m[k] for k in ("id", "file", "line", "op", "old", "new")}
+    try:
+        r = subprocess.run(["go", "test", "-vet=off", "-count=1", "-timeout", "120s", "-skip", FLAKY, "./..."], cwd=d, env=ENV, capture_output=True, text=True, timeout=200)
+        if r.returncode != 0:
+            res["A"] = "killed by the suite"
+        else:
+            fails = 0
+            for _ in range(3):
+                r = subprocess.run(["go", "test", "-vet=off", "-count=1", "-timeout", "120s", "-run", FLAKY, "./websocket/"], cwd=d, env=ENV, capture_output=True, text=True, timeout=200)
+                fails += r.returncode != 0
+                if r.returncode == 0:
+                    break
+            res["A"] = "killed by the suite" if fails == 3 else "survives"
+            if fails and res["A"] == "survives":
+                res["note"] = "first verdict was a load-dependent failure of the suite"
+    except subprocess.TimeoutExpired:
+        res["A"] = "killed by the suite (timeout)"
+    res["recheck"] = True
+    record("A", res)
+    return res
+
 def run_checks(worker, m, stage):
     d = scratch(worker, m)
     bdir = os.path.join(VERIF, ".build-" + hashlib.sha1(d.encode()).hexdigest()[:8])
@@ -128,6 +155,9 @@ def main():
     ms = mutants()
     if stage == "A":
         todo = [m for m in ms if m["id"] not in done("A")]
+    elif stage == "A2":
+        a = done("A")
+        todo = [m for m in ms if a.get(m["id"], {}).get("A") == "killed by the suite" and not a[m["id"]].get("recheck")]
     elif stage == "B":
         a = done("A"); b = done("B")
         todo = [m for m in ms if a.get(m["id"], {}).get("A") == "survives" and m["id"] not in b]
@@ -145,7 +175,7 @@ def main():
             try: m = q.get_nowait()
             except queue.Empty: return
             try:
-                r = stageA(w, m) if stage == "A" else run_checks(w, m, stage)
+                r = stageA(w, m) if stage == "A" else stageA2(w, m) if stage == "A2" else run_checks(w, m, stage)
                 print(m["id"], m["file"], m["line"], m["op"], "=>", r.get("A") or r.get("verdict"), flush=True)
             except Exception as e:
                 print(m["id"], "error", e, flush=True)
